@@ -450,3 +450,266 @@ Proof.
     apply tbl_wfb_correct in F. now apply (undo_update_spec tn oc sm ups t dv u).
   - inversion H; subst; clear H. now apply undo_delete_spec.
 Qed.
+
+(* ================= databases ================= *)
+Definition db_wf (d : db) : Prop := forall tn, tbl_wf (db_get tn d).
+
+Lemma db_get_set tn tn' t d : db_get tn' (db_set tn t d) = if bytes_eqb tn' tn then t else db_get tn' d.
+Proof.
+  destruct (bytes_eqb tn' tn) eqn:E.
+  - apply bytes_eqb_eq in E. subst. apply db_get_set_eq.
+  - apply bytes_eqb_false in E. apply db_get_set_neq. congruence.
+Qed.
+
+Lemma db_set_wf tn t d : db_wf d -> tbl_wf t -> db_wf (db_set tn t d).
+Proof. intros H W tn'. rewrite db_get_set. destruct (bytes_eqb tn' tn); [assumption | apply H]. Qed.
+
+Definition touched (imgs : list image) (tn : tablename) (k : key) : Prop :=
+  exists img, In img imgs /\ i_tn img = tn /\ In k (img_keys img).
+
+Definition dagree (S : tablename -> key -> Prop) (d1 d2 : db) : Prop :=
+  forall tn k, S tn k -> lookup k (db_get tn d1) = lookup k (db_get tn d2).
+
+Lemma undo_images_app dv l1 l2 d :
+  undo_images dv (l1 ++ l2) d = match undo_images dv l1 d with Some d' => undo_images dv l2 d' | None => None end.
+Proof. revert d; induction l1; intro d; cbn; [reflexivity|]. destruct (undo_one dv a d); auto. Qed.
+
+(* the generated executor table: every executor validates, skips empty images *)
+Lemma exec_validates_all k : exec_validates k = true.
+Proof. destruct k; reflexivity. Qed.
+Lemma exec_skips_empty_all k : exec_skips_empty k = true.
+Proof. destruct k; reflexivity. Qed.
+
+Lemma undo_one_spec dv img u tprev :
+  undo_spec dv img (db_get (i_tn img) u) tprev ->
+  exists u', undo_one dv img u = Some u' /\
+    agree_on (img_keys img) (db_get (i_tn img) u') tprev /\
+    (forall k, ~ In k (img_keys img) -> lookup k (db_get (i_tn img) u') = lookup k (db_get (i_tn img) u)) /\
+    (forall tn', tn' <> i_tn img -> db_get tn' u' = db_get tn' u).
+Proof.
+  intro H. unfold undo_one. rewrite exec_validates_all, exec_skips_empty_all.
+  destruct H as [[E A]|[E [[V A]|[V [t' [C [A F]]]]]]]; rewrite E.
+  - exists u. repeat split; auto.
+  - rewrite V. exists u. repeat split; auto.
+  - rewrite V, C. exists (db_set (i_tn img) t' u). split; [reflexivity|].
+    rewrite db_get_set_eq. repeat split; auto.
+    intros tn' Hn. apply db_get_set_neq. congruence.
+Qed.
+
+Lemma run_stmts_wf oc ss d d' imgs : db_wf d -> run_stmts oc ss d = Some (d', imgs) -> db_wf d'.
+Proof.
+  revert d d' imgs; induction ss as [|s ss IH]; intros d d' imgs W H; cbn in H.
+  - inversion H; subst; assumption.
+  - destruct (at_stmt oc s (db_get (stmt_tn s) d)) as [[t' img]|] eqn:E; [|discriminate].
+    destruct (run_stmts oc ss (db_set (stmt_tn s) t' d)) as [[d2 imgs2]|] eqn:E2; [|discriminate].
+    inversion H; subst. eapply IH; [|eassumption].
+    apply db_set_wf; [assumption|]. eapply at_stmt_wf; [apply W | eassumption].
+Qed.
+
+(* phase one only changes touched keys *)
+Lemma run_stmts_frame oc ss d d' imgs : run_stmts oc ss d = Some (d', imgs) ->
+  forall tn k, ~ touched imgs tn k -> lookup k (db_get tn d') = lookup k (db_get tn d).
+Proof.
+  revert d d' imgs; induction ss as [|s ss IH]; intros d d' imgs H tn k NT; cbn in H.
+  - inversion H; subst; reflexivity.
+  - destruct (at_stmt oc s (db_get (stmt_tn s) d)) as [[t' img]|] eqn:E; [|discriminate].
+    destruct (run_stmts oc ss (db_set (stmt_tn s) t' d)) as [[d2 imgs2]|] eqn:E2; [|discriminate].
+    inversion H; subst; clear H.
+    rewrite (IH _ _ _ E2 tn k).
+    2:{ intros [im [Hin [Ht Hk]]]. apply NT. exists im. split; [now right | auto]. }
+    rewrite db_get_set. destruct (bytes_eqb tn (stmt_tn s)) eqn:B; [|reflexivity].
+    apply bytes_eqb_eq in B. subst tn.
+    eapply at_stmt_frame; [eassumption|].
+    intro Hk. apply NT. exists img. split; [now left|]. split; [eapply at_stmt_tn; eassumption | assumption].
+Qed.
+
+(* L3: replaying the images of a local transaction in reverse order restores,
+   on every key set S that covers them, the tables before it *)
+Lemma run_stmts_undo oc dv ss d0 dn imgs : db_wf d0 -> run_stmts oc ss d0 = Some (dn, imgs) ->
+  forall (S : tablename -> key -> Prop) u,
+    (forall tn k, touched imgs tn k -> S tn k) -> dagree S u dn ->
+    exists u', undo_images dv (rev imgs) u = Some u' /\ dagree S u' d0 /\
+      (forall tn k, ~ touched imgs tn k -> lookup k (db_get tn u') = lookup k (db_get tn u)).
+Proof.
+  revert d0 dn imgs; induction ss as [|s ss IH]; intros d0 dn imgs W H S u Cov A; cbn in H.
+  - inversion H; subst. exists u. cbn. repeat split; auto.
+  - destruct (at_stmt oc s (db_get (stmt_tn s) d0)) as [[t1 img]|] eqn:E; [|discriminate].
+    destruct (run_stmts oc ss (db_set (stmt_tn s) t1 d0)) as [[d2 imgs2]|] eqn:E2; [|discriminate].
+    inversion H; subst; clear H.
+    set (d1 := db_set (stmt_tn s) t1 d0) in *.
+    assert (W1 : db_wf d1).
+    { apply db_set_wf; [assumption|]. eapply at_stmt_wf; [apply W | eassumption]. }
+    assert (Cov2 : forall tn k, touched imgs2 tn k -> S tn k).
+    { intros tn k [im [Hin R]]. apply Cov. exists im. split; [now right | assumption]. }
+    destruct (IH d1 dn imgs2 W1 E2 S u Cov2 A) as [u1 [U1 [A1 F1]]].
+    pose proof (at_stmt_tn _ _ _ _ _ E) as TN.
+    assert (CovI : forall k, In k (img_keys img) -> S (stmt_tn s) k).
+    { intros k Hk. apply Cov. exists img. split; [now left|]. split; assumption. }
+    assert (Sp : undo_spec dv img (db_get (i_tn img) u1) (db_get (stmt_tn s) d0)).
+    { eapply at_stmt_undo; [apply W | eassumption |].
+      intros k Hk. rewrite TN. rewrite (A1 _ _ (CovI k Hk)). unfold d1. now rewrite db_get_set_eq. }
+    destruct (undo_one_spec _ _ _ _ Sp) as [u2 [U2 [A2 [F2 O2]]]].
+    exists u2. split; [|split].
+    + cbn [rev]. rewrite undo_images_app, U1. cbn. now rewrite U2.
+    + intros tn k HS. destruct (bytes_eq_dec tn (stmt_tn s)) as [->|Hn].
+      * destruct (in_dec key_eq_dec k (img_keys img)) as [Hk|Hk].
+        -- pose proof (A2 k Hk) as Q. rewrite TN in Q. exact Q.
+        -- pose proof (F2 k Hk) as Q. rewrite TN in Q. rewrite Q, (A1 _ _ HS). unfold d1. rewrite db_get_set_eq.
+           eapply at_stmt_frame; eassumption.
+      * rewrite O2 by (rewrite TN; assumption). rewrite (A1 _ _ HS). unfold d1.
+        apply f_equal. apply db_get_set_neq. congruence.
+    + intros tn k NT.
+      assert (NT2 : ~ touched imgs2 tn k).
+      { intros [im [Hin R]]. apply NT. exists im. split; [now right | assumption]. }
+      rewrite <- (F1 _ _ NT2).
+      destruct (bytes_eq_dec tn (i_tn img)) as [->|Hn].
+      * apply F2. intro Hk. apply NT. exists img. split; [now left | split; [reflexivity | assumption]].
+      * now rewrite O2.
+Qed.
+
+(* ================= the undo log ================= *)
+Lemma ukey_eqb_eq a b : ukey_eqb a b = true <-> a = b.
+Proof.
+  destruct a as [a1 a2], b as [b1 b2]. unfold ukey_eqb; cbn.
+  rewrite andb_true_iff, !N.eqb_eq. split; [intros [-> ->]; reflexivity | intro H; inversion H; auto].
+Qed.
+Lemma ukey_eqb_refl a : ukey_eqb a a = true.
+Proof. now apply ukey_eqb_eq. Qed.
+Lemma ukey_eqb_false a b : ukey_eqb a b = false <-> a <> b.
+Proof. rewrite <- ukey_eqb_eq. destruct (ukey_eqb a b); split; congruence. Qed.
+
+Lemma ulookup_uremove x y l : ulookup y (uremove x l) = if ukey_eqb y x then None else ulookup y l.
+Proof.
+  induction l as [|[z u] l IH]; cbn; [now destruct (ukey_eqb y x)|].
+  destruct (ukey_eqb x z) eqn:E1.
+  - apply ukey_eqb_eq in E1. subst z. rewrite IH. destruct (ukey_eqb y x); reflexivity.
+  - cbn. rewrite IH. destruct (ukey_eqb y z) eqn:E2; [|reflexivity].
+    apply ukey_eqb_eq in E2. subst z.
+    destruct (ukey_eqb y x) eqn:E3; [|reflexivity].
+    apply ukey_eqb_eq in E3. subst. rewrite ukey_eqb_refl in E1. discriminate.
+Qed.
+
+Definition no_normal (x : ukey) (d : dbs) : Prop :=
+  match ulookup x (d_undo d) with Some u => u_normal u = false | None => True end.
+
+Definition branch_touched (d : dbs) (x : ukey) (tn : tablename) (k : key) : Prop :=
+  match ulookup x (d_undo d) with
+  | Some u => match u_body u with Some imgs => touched imgs tn k | None => False end
+  | None => False
+  end.
+
+(* ---- what a clean delivery does ---- *)
+Lemma rollback_clean_marker cfg u x : ulookup x (d_undo u) = None ->
+  rollback_branch cfg None u x =
+  {| r_db := {| d_tabs := d_tabs u; d_undo := (x, marker) :: d_undo u |}; r_out := status_ok;
+     r_fired := false; r_tx_open := false; r_conn_released := undo_closes_conn; r_ops := 6 |}.
+Proof. intro H. unfold rollback_branch, undo_plan. rewrite H. reflexivity. Qed.
+
+Lemma rollback_clean_finished cfg u x row : ulookup x (d_undo u) = Some row -> u_normal row = false ->
+  rollback_branch cfg None u x =
+  {| r_db := u; r_out := status_ok; r_fired := false; r_tx_open := false;
+     r_conn_released := undo_closes_conn; r_ops := 3 |}.
+Proof. intros H N. unfold rollback_branch, undo_plan. rewrite H, N. reflexivity. Qed.
+
+Lemma rollback_clean_normal cfg u x row imgs tabs' : ulookup x (d_undo u) = Some row -> u_normal row = true ->
+  u_body row = Some imgs -> undo_images (c_validation cfg) (rev imgs) (d_tabs u) = Some tabs' ->
+  let r := rollback_branch cfg None u x in
+  r_db r = {| d_tabs := tabs'; d_undo := uremove x (d_undo u) |} /\ r_out r = status_ok /\
+  r_fired r = false /\ r_tx_open r = false.
+Proof.
+  intros H N B U. unfold rollback_branch, undo_plan. rewrite H, N, B. cbn [negb].
+  unfold order_log. change undo_reverses_log with true. change undo_empty_log_returns_early with false.
+  rewrite andb_false_r. cbn iota. rewrite U. cbn. auto.
+Qed.
+
+Lemma rollback_clean_failed cfg u x row imgs : ulookup x (d_undo u) = Some row -> u_normal row = true ->
+  u_body row = Some imgs -> undo_images (c_validation cfg) (rev imgs) (d_tabs u) = None ->
+  let r := rollback_branch cfg None u x in
+  r_db r = u /\ r_out r = status_plain_error /\ r_fired r = false /\ r_tx_open r = false.
+Proof.
+  intros H N B U. unfold rollback_branch, undo_plan. rewrite H, N, B. cbn [negb].
+  unfold order_log. change undo_reverses_log with true. change undo_empty_log_returns_early with false.
+  rewrite andb_false_r. cbn iota. rewrite U. cbn. auto.
+Qed.
+
+(* ---- phase one of a branch ---- *)
+Lemma image_empty_untouched imgs : forallb image_empty imgs = true -> forall tn k, ~ touched imgs tn k.
+Proof.
+  intros H tn k [img [Hin [_ Hk]]]. rewrite forallb_forall in H. specialize (H _ Hin).
+  unfold image_empty in H. unfold img_keys in Hk.
+  destruct (i_before img); [|discriminate]. destruct (i_after img); [|discriminate]. destruct Hk.
+Qed.
+
+Lemma phase1_branch_other cfg x ss d d' ok y : phase1_branch cfg x ss d = (d', ok) -> y <> x ->
+  ulookup y (d_undo d') = ulookup y (d_undo d).
+Proof.
+  unfold phase1_branch. intros H Hn.
+  destruct (run_stmts (c_only_care cfg) ss (d_tabs d)) as [[tabs' imgs]|]; [|inversion H; reflexivity].
+  destruct (forallb image_empty imgs); [inversion H; reflexivity|].
+  destruct (ulookup x (d_undo d)); inversion H; subst; [reflexivity|]. cbn.
+  apply ukey_eqb_false in Hn. now rewrite Hn.
+Qed.
+
+Lemma phase1_branch_wf cfg x ss d d' ok : db_wf (d_tabs d) -> phase1_branch cfg x ss d = (d', ok) -> db_wf (d_tabs d').
+Proof.
+  unfold phase1_branch. intros W H.
+  destruct (run_stmts (c_only_care cfg) ss (d_tabs d)) as [[tabs' imgs]|] eqn:R; [|inversion H; subst; assumption].
+  pose proof (run_stmts_wf _ _ _ _ _ W R) as W'.
+  destruct (forallb image_empty imgs); [inversion H; subst; assumption|].
+  destruct (ulookup x (d_undo d)); inversion H; subst; assumption.
+Qed.
+
+Lemma phase1_branch_failed cfg x ss d d' : phase1_branch cfg x ss d = (d', false) -> d' = d.
+Proof.
+  unfold phase1_branch. intro H.
+  destruct (run_stmts (c_only_care cfg) ss (d_tabs d)) as [[tabs' imgs]|]; [|inversion H; reflexivity].
+  destruct (forallb image_empty imgs); [inversion H|].
+  destruct (ulookup x (d_undo d)); inversion H; reflexivity.
+Qed.
+
+Lemma phase1_branch_frame cfg x ss d d' ok : ulookup x (d_undo d) = None -> phase1_branch cfg x ss d = (d', ok) ->
+  forall tn k, ~ branch_touched d' x tn k -> lookup k (db_get tn (d_tabs d')) = lookup k (db_get tn (d_tabs d)).
+Proof.
+  unfold phase1_branch. intros F H tn k NT.
+  destruct (run_stmts (c_only_care cfg) ss (d_tabs d)) as [[tabs' imgs]|] eqn:R; [|inversion H; reflexivity].
+  destruct (forallb image_empty imgs) eqn:EI.
+  - inversion H; subst; cbn. eapply run_stmts_frame; [eassumption|]. now apply image_empty_untouched.
+  - rewrite F in H. inversion H; subst; cbn.
+    eapply run_stmts_frame; [eassumption|].
+    unfold branch_touched in NT. cbn in NT. rewrite ukey_eqb_refl in NT. exact NT.
+Qed.
+
+(* one branch: phase one, then (after anything that respects S) its rollback *)
+Lemma branch_roundtrip cfg x ss d d' : db_wf (d_tabs d) -> ulookup x (d_undo d) = None ->
+  phase1_branch cfg x ss d = (d', true) ->
+  forall (S : tablename -> key -> Prop) u,
+    (forall tn k, branch_touched d' x tn k -> S tn k) ->
+    dagree S (d_tabs u) (d_tabs d') -> ulookup x (d_undo u) = ulookup x (d_undo d') ->
+    let r := rollback_branch cfg None u x in
+    r_out r = status_ok /\ dagree S (d_tabs (r_db r)) (d_tabs d) /\
+    (forall tn k, ~ S tn k -> lookup k (db_get tn (d_tabs (r_db r))) = lookup k (db_get tn (d_tabs u))) /\
+    no_normal x (r_db r) /\ (forall y, y <> x -> ulookup y (d_undo (r_db r)) = ulookup y (d_undo u)).
+Proof.
+  intros W F H S u Cov A UL. pose proof H as H0. unfold phase1_branch in H.
+  destruct (run_stmts (c_only_care cfg) ss (d_tabs d)) as [[tabs' imgs]|] eqn:R; [|inversion H].
+  destruct (forallb image_empty imgs) eqn:EI.
+  - (* nothing flushed: the delivery finds no undo log and leaves the marker *)
+    inversion H; subst d'; clear H. cbn in UL. rewrite F in UL.
+    rewrite (rollback_clean_marker cfg u x UL). cbn.
+    split; [reflexivity|]. split; [|split; [|split]].
+    + intros tn k HS. rewrite (A _ _ HS). cbn.
+      eapply run_stmts_frame; [eassumption|]. now apply image_empty_untouched.
+    + reflexivity.
+    + unfold no_normal. cbn. rewrite ukey_eqb_refl. reflexivity.
+    + intros y Hn. apply ukey_eqb_false in Hn. now rewrite Hn.
+  - rewrite F in H. inversion H; subst d'; clear H. cbn in UL, A, Cov. rewrite ukey_eqb_refl in UL.
+    assert (Cov' : forall tn k, touched imgs tn k -> S tn k).
+    { intros tn k T. apply Cov. unfold branch_touched. cbn. rewrite ukey_eqb_refl. exact T. }
+    destruct (run_stmts_undo _ (c_validation cfg) _ _ _ _ W R S (d_tabs u) Cov' A) as [u' [U [A' F']]].
+    destruct (rollback_clean_normal cfg u x _ imgs u' UL eq_refl eq_refl U) as [E1 [E2 _]].
+    cbn zeta. rewrite E1, E2. cbn.
+    split; [reflexivity|]. split; [exact A'|]. split; [|split].
+    + intros tn k NS. apply F'. intro T. apply NS, Cov', T.
+    + unfold no_normal. cbn. rewrite ulookup_uremove, ukey_eqb_refl. exact I.
+    + intros y Hn. rewrite ulookup_uremove. apply ukey_eqb_false in Hn. now rewrite Hn.
+Qed.
